@@ -1013,7 +1013,7 @@ def _threads(ctx: Ctx, rng: SimRng) -> None:
                 return real_read(filename)
 
             holder["wl"]._read_wordlist = flaky
-        strat_kind = ch.weighted([("pct", 5), ("unif", 3), ("stagger", 2)], "strategy")
+        strat_kind = ch.weighted([("pct", 5), ("unif", 3), ("stagger", 2)] if focus != "signers" else [("pct", 2), ("unif", 6), ("stagger", 1)], "strategy")
         strategy: dict[str, Any] = {"kind": strat_kind}
         if strat_kind == "pct":
             strategy["d"] = 1 + ch.draw(3, "pct.d")
@@ -1047,7 +1047,7 @@ def _threads(ctx: Ctx, rng: SimRng) -> None:
             n_chaos = 1 + ch.draw(5, "nchaos")
             acts = [ch.draw(3, "chaos.act") for _ in range(n_chaos)]
             if focus == "signers":
-                acts = [0] * (2 * n_chaos)  # the switch moves while signers are being built
+                acts = [0] * (8 + 8 * n_chaos)  # the switch keeps moving while signers are being built
 
             def chaos_body() -> None:
                 for a in acts:
